@@ -189,6 +189,7 @@ class Tok(Stub):
 
     def __init__(self, name, ndim=1, shape=(3,)):
         self.name, self.ndim, self.shape = name, ndim, shape
+        self.dtype = np.dtype(np.float64)
 
     def __repr__(self):
         return "Tok(%s)" % self.name
@@ -289,15 +290,18 @@ def hdf5_several_grids(ck):
         ps2 = it.explore(lambda: (GM.hdf5_nssgrid_reader, ["F.h5"], {"path": read_path})) if all(p.kind == "return" for p in allp) and len(allp) == len(steps) else []
         ck.add_functions(it)
         otag = "[%s]" % tag
-        if any(p.kind == "unsupported" for p in allp + ps2) or (not ps2 and all(p.kind == "return" for p in allp)):
+        if any(p.kind != "return" for p in allp) or any(p.kind == "unsupported" for p in ps2) or not ps2:
+            # a writer step that does not return on the token grids (an attribute the array tokens do not have, an unsupported construct) is a
+            # limit of this harness: the real-file sequence decides
             o = ck.ob("%s/exec%s" % (qn, otag), "exec")
             o.note = str([(p.kind, str(p.exc)[:80]) for p in allp + ps2])[:300]
             ck._undecided(o, lambda: native_several_grids(ck))
             continue
         ok = bool(ps2) and ps2[0].kind == "return" and _tok(made.get("data")) is want.data and made.get("names") == want.axis_names
-        ck.direct("%s/several_grids%s" % (qn, otag), ok, "post", "symbolic execution of writer, writer, reader on h5py stubs with the library's open modes", note="open modes %s; %s" % (modes, str([(p.kind, str(p.exc)[:60]) for p in allp + ps2])[:160]),
+        nat = None if ok else native_several_grids(ck)
+        ck.direct("%s/several_grids%s" % (qn, otag), True if ok else (False if nat.get("violated") else None), "post", "symbolic execution of writer, writer, reader on h5py stubs with the library's open modes", note="open modes %s; %s" % (modes, str([(p.kind, str(p.exc)[:60]) for p in allp + ps2])[:160]),
                   clause="a file holds several grids under different paths: writing another grid (or replacing one) leaves the others readable", witness=None if ok else {"sequence": tag},
-                  replay_out=None if ok else native_several_grids(ck))
+                  replay_out=nat)
 
 
 def native_several_grids(ck):
